@@ -26,6 +26,8 @@ try:
     rc0, out0 = sh(democmd, cwd=wt)
     res["demo_without_patch"] = "pass" if rc0 == 0 else "FAIL"
     rc, out = sh(["git", "-C", wt, "apply", os.path.join(d, "patch.diff")])
+    if rc != 0:
+        rc, out = sh(["git", "-C", wt, "apply", "--3way", os.path.join(d, "patch.diff")])
     res["patch_applies"] = rc == 0
     rc1, out1 = sh(democmd, cwd=wt)
     res["demo_with_patch"] = "fail" if rc1 != 0 else "PASS"
